@@ -1,17 +1,17 @@
-(* Protocol-level round trip for pair-table protocols: IrProtocolBase.decode (fresh instance) applied to a
+(* Protocol-level round trip for pair-table protocols (halfbit and Manchester stream encodings): IrProtocolBase.decode (fresh instance) applied to a
    (possibly perturbed) frame built by _build_packet from bit fields returns exactly those bit fields.
    A decidable check [rt_ok] on the regenerated descriptor supplies every side condition of the engine
    theorems; the fields only have to be canonical and to have the widths the descriptor declares. *)
 From Coq Require Import ZArith List Bool Lia ZifyBool ZifyNat String.
 Require Import PyIR.Base.Result PyIR.IW.IW PyIR.IW.IWProps PyIR.IW.Timings
                PyIR.Engine.Match PyIR.Engine.Render PyIR.Engine.RenderProps PyIR.Engine.Parse PyIR.Engine.ParseProps
-               PyIR.Engine.RoundTripH PyIR.Proto.Descriptor PyIR.Proto.Model PyIR.Proto.Shape PyIR.Proto.C03Check.
+               PyIR.Engine.RoundTripH PyIR.Engine.ParseM PyIR.Engine.RoundTripM PyIR.Proto.Descriptor PyIR.Proto.Model PyIR.Proto.Shape PyIR.Proto.C03Check.
 Import ListNotations.
 Open Scope Z_scope.
 
 (* IrProtocolBase.decode on an instance that holds no key: full parse, bit-count guard, one wrapper per parameter *)
 Definition base_decode (D : desc) (t : ptable) (tol : Z) (frame : list Z) : result (list iw) :=
-  do p <- parseH tol (d_lead_in D) (d_lead_out D) t frame;
+  do p <- parseC tol (d_lead_in D) (d_lead_out D) t frame;
   let n := Z.of_nat (List.length (p_bits p)) in
   if d_bit_count D <? n then IRErr TooManyBitsError
   else if n <? d_bit_count D then IRErr NotEnoughBitsError
@@ -97,8 +97,29 @@ Definition rt_ok_t (D : desc) (t : ptable) (tol : Z) : bool :=
   && (0 <? d_bit_count D)
   && lo_ok D t.
 
+(* Manchester tables [(m, s); (s, m)]: one bit per symbol; the lead-out is a single gap or a single frame period *)
+Definition lo_okM (D : desc) (tol m s : Z) : bool :=
+  match d_lead_out D with
+  | [g] => if g <? 0 then negb (g =? PLACEHOLDER) && lo_merge_ok tol m s g
+           else (0 <? g) && negb (g =? PLACEHOLDER) && (sum_abs (d_lead_in D) + d_bit_count D * (Z.abs m + Z.abs s) <? g)
+  | _ => false
+  end.
+
+Definition rtM_ok_t (D : desc) (t : ptable) (tol : Z) : bool :=
+  match t with
+  | [(m, s); (s', m')] =>
+      (0 <=? tol) && (tol <=? 100) && (s' =? s) && (m' =? m) && (m * s <? 0) && man_table_ok tol m s
+      && nzb (d_lead_in D) && alternatingb (d_lead_in D) && li_last_ok tol m s (d_lead_in D)
+      && tiles 1 0 (d_params D) && (total_bits (d_params D) =? d_bit_count D) && (2 <=? d_bit_count D)
+      && lo_okM D tol m s
+  | _ => false
+  end.
+
 Definition rt_ok (D : desc) (tol : Z) : bool :=
-  match as_pairs (d_bursts D) with Some t => rt_ok_t D t tol | None => false end.
+  match as_pairs (d_bursts D) with
+  | Some t => if is_manchester t then rtM_ok_t D t tol else rt_ok_t D t tol
+  | None => false
+  end.
 
 (* ------------------------------------------------------------------ bits of the fields and get_value *)
 Lemma pad_count_zero tl n : (tl = 2 \/ tl = 4 \/ tl = 16)%nat -> (n mod bps tl = 0)%nat -> pad_count tl n = 0%nat.
@@ -329,7 +350,7 @@ Proof.
 Qed.
 
 Lemma base_decode_of_parse D t tol ds p xs :
-  parseH tol (d_lead_in D) (d_lead_out D) t ds = Ok p ->
+  parseC tol (d_lead_in D) (d_lead_out D) t ds = Ok p ->
   p_bits p = flat_map (field_bits (d_msb D)) xs ->
   Forall canonical xs -> map nbits xs = widths (d_params D) ->
   tiles (Z.of_nat (bps (List.length t))) 0 (d_params D) = true -> total_bits (d_params D) = d_bit_count D ->
@@ -365,14 +386,14 @@ Proof.
 Qed.
 
 (* IrProtocolBase.decode of a (perturbed) frame built from canonical fields of the declared widths returns the fields *)
-Theorem base_decode_roundtrip D tol xs frame ds :
-  rt_ok D tol = true -> Forall canonical xs -> map nbits xs = widths (d_params D) ->
+Lemma base_decode_roundtrip_H D t tol xs frame ds :
+  as_pairs (d_bursts D) = Some t -> is_manchester t = false -> rt_ok_t D t tol = true ->
+  Forall canonical xs -> map nbits xs = widths (d_params D) ->
   render_part (PPacket (d_lead_in D) (d_lead_out D) (d_bursts D) (d_msb D) [] xs) = Ok frame ->
   perturbed tol (period_of D) frame ds ->
-  exists t, as_pairs (d_bursts D) = Some t /\ base_decode D t tol ds = Ok xs.
+  base_decode D t tol ds = Ok xs.
 Proof.
-  intros Hok Hc Hw Hr Hp. unfold rt_ok in Hok. destruct (as_pairs (d_bursts D)) as [t|] eqn:Et; [|discriminate].
-  exists t. split; [reflexivity|]. pose proof (as_pairs_table _ _ Et) as Eb.
+  intros Et Hman Hok Hc Hw Hr Hp. pose proof (as_pairs_table _ _ Et) as Eb.
   unfold rt_ok_t in Hok.
   repeat match type of Hok with (_ && _ = true) => let H := fresh "H" in apply andb_true_iff in Hok as [Hok H] end.
   rename H into Hlo, H0 into Hbc, H1 into Htot, H2 into Htiles, H3 into Hli, H4 into Hlen, H5 into Hwf, H6 into Htol2.
@@ -402,7 +423,8 @@ Proof.
   (* finish from a successful parse *)
   assert (forall norm sy, parseH tol li lo t ds = Ok {| p_bits := bits_of t syms; p_norm := norm; p_syms := sy |} ->
           base_decode D t tol ds = Ok xs) as Hfin.
-  { intros norm sy Hpp. apply (base_decode_of_parse D t tol ds _ xs Hpp); auto. }
+  { intros norm sy Hpp. apply (base_decode_of_parse D t tol ds {| p_bits := bits_of t syms; p_norm := norm; p_syms := sy |} xs); auto.
+    unfold parseC. rewrite Hman. exact Hpp. }
   unfold lo_ok in Hlo. cbv zeta in Hlo. fold lo in Hlo. fold li in Hlo. fold k in Hlo. destruct (classify_lo lo) as [|core P|P|] eqn:Ecl; [| | |discriminate].
   - (* fixed gap *)
     pose proof (classify_fixed _ Ecl) as Hlast. fold lo in Hlast.
@@ -477,6 +499,92 @@ Proof.
         by (rewrite <- !app_assoc; reflexivity). exact Halt.
 Qed.
 
+(* ------------------------------------------------------------------ Manchester tables *)
+Lemma sum_abs_render_mt m s syms : Forall (fun i => (i < 2)%nat) syms ->
+  sum_abs (render_data (mt m s) syms) = Z.of_nat (List.length syms) * (Z.abs m + Z.abs s).
+Proof.
+  induction syms as [|i syms IH]; intros H; [reflexivity|]. inversion H as [|? ? Hi H']; subst.
+  unfold render_data. cbn [flat_map]. fold (render_data (mt m s) syms). rewrite sum_abs_app, IH by exact H'.
+  cbn [List.length]. destruct (sym_cases m s i Hi) as [-> | ->]; rewrite !sum_abs_cons, sum_abs_nil; lia.
+Qed.
+
+Lemma base_decode_roundtrip_M D t tol xs frame ds :
+  as_pairs (d_bursts D) = Some t -> is_manchester t = true -> rtM_ok_t D t tol = true ->
+  Forall canonical xs -> map nbits xs = widths (d_params D) ->
+  render_part (PPacket (d_lead_in D) (d_lead_out D) (d_bursts D) (d_msb D) [] xs) = Ok frame ->
+  perturbed tol (period_of D) frame ds ->
+  base_decode D t tol ds = Ok xs.
+Proof.
+  intros Et Hman Hok Hc Hw Hr Hp. pose proof (as_pairs_table _ _ Et) as Eb.
+  unfold rtM_ok_t in Hok. destruct t as [|[m s] [|[s' m'] [|q r]]]; try discriminate.
+  repeat match type of Hok with (_ && _ = true) => let H := fresh "H" in apply andb_true_iff in Hok as [Hok H] end.
+  rename H into Hlo, H0 into Hbc, H1 into Htot, H2 into Htiles, H3 into Hlast, H4 into Halt, H5 into Hnz, H6 into Htab,
+         H7 into Hms, H8 into Em, H9 into Es, H10 into Htol2.
+  assert (0 <= tol <= 100) as Ht by lia. assert (s' = s) by lia. assert (m' = m) by lia. subst s' m'.
+  assert (m * s < 0) as Hms' by lia. apply Z.eqb_eq in Htot.
+  apply nonzero_of_nzb in Hnz. apply alternatingb_sound in Halt.
+  change [(m, s); (s, m)] with (mt m s) in *. set (t := mt m s) in *.
+  set (li := d_lead_in D) in *. set (msb := d_msb D) in *.
+  destruct (fields_durations_pairs msb t xs (or_introl eq_refl)) as [syms [Efd [Hsv [Hsl Hsb]]]].
+  cbn [render_part pos_durations bind] in Hr. rewrite Eb, Efd in Hr. cbn [bind app] in Hr. injection Hr as <-.
+  change (List.length t) with 2%nat in *. change (bps 2) with 1%nat in *.
+  pose proof (tiles_widths 1 ltac:(lia) _ _ Htiles) as Hws. rewrite <- Hw in Hws.
+  destruct (fields_bits_nopad msb 2 xs (or_introl eq_refl) Hws) as [Enp [Ecnt [Hs0 Hsm]]].
+  rewrite Hw, widths_sum, Htot in Ecnt, Hs0, Hsm. change (Z.of_nat (bps 2)) with 1 in Ecnt. rewrite Z.div_1_r in Ecnt.
+  rewrite Enp in Hsb. rewrite Ecnt in Hsl.
+  assert (Z.of_nat (List.length syms) = d_bit_count D) as Hlen by lia.
+  assert (2 <= List.length syms)%nat as Hlen2 by lia.
+  assert (syms <> []) as Hsne by (intros ->; cbn in Hlen2; lia).
+  pose proof (sum_abs_render_mt m s syms Hsv) as Hsum. fold t in Hsum. rewrite Hlen in Hsum.
+  assert (forall norm sy, parseM tol li (d_lead_out D) t ds = Ok {| p_bits := bits_of t syms; p_norm := norm; p_syms := sy |} ->
+          base_decode D t tol ds = Ok xs) as Hfin.
+  { intros norm sy Hpp. apply (base_decode_of_parse D t tol ds {| p_bits := bits_of t syms; p_norm := norm; p_syms := sy |} xs); auto.
+    unfold parseC. rewrite Hman. exact Hpp. }
+  unfold lo_okM in Hlo. destruct (d_lead_out D) as [|g [|g2 lr]] eqn:Elo; try discriminate.
+  destruct (g <? 0) eqn:Eg.
+  - (* a single fixed gap *)
+    apply andb_true_iff in Hlo as [Lph Lm].
+    assert (period_of D = None) as Hper.
+    { unfold period_of. rewrite Elo. change (last_opt [g]) with (Some g). cbv beta iota. replace (0 <? g) with false by lia. reflexivity. }
+    assert (build_packet li [g] (render_data t syms) = compress (li ++ render_data t syms ++ [g])) as Ebp.
+    { unfold build_packet. change (last_opt [g]) with (Some g). cbv beta iota. replace (0 <? g) with false by lia. reflexivity. }
+    rewrite Ebp in Hp. destruct Hp as [_ Hcl|P body HP]; [|congruence].
+    eapply Hfin. apply (parseM_render_fixed tol m s Ht Hms' Htab li g syms ds); auto; lia.
+  - (* the frame period *)
+    repeat match type of Hlo with (_ && _ = true) => let H := fresh "L" in apply andb_true_iff in Hlo as [Hlo H] end.
+    rename g into P. repeat match goal with H : context [d_lead_in D] |- _ => progress change (d_lead_in D) with li in H end.
+    assert (0 < P) as HP by lia.
+    assert (period_of D = Some P) as Hper.
+    { unfold period_of. rewrite Elo. change (last_opt [P]) with (Some P). cbv beta iota. replace (0 <? P) with true by lia. reflexivity. }
+    assert (li ++ render_data t syms <> []) as Hbne by (destruct li; [destruct syms; [congruence|]; destruct (render_cons m s n syms Hms' ltac:(inversion Hsv; auto)) as [h1 [h2 [_ [_ [_ E]]]]]; fold t in E; rewrite E|]; discriminate).
+    assert (nonzero (li ++ render_data t syms)) as Hbnz.
+    { apply nonzero_app. split; [exact Hnz|]. clear -Hsv Hms'. induction syms as [|i syms IH]; [constructor|].
+      inversion Hsv as [|? ? Hi Hsv']; subst. unfold render_data. cbn [flat_map]. fold (render_data t syms).
+      apply nonzero_app. split; [|apply IH; exact Hsv'].
+      destruct (sym_cases m s i Hi) as [E | E]; unfold t; rewrite E; repeat constructor; nia. }
+    assert (build_packet li [P] (render_data t syms)
+            = compress ((li ++ render_data t syms) ++ [sum_abs (li ++ render_data t syms) - P])) as Ebp.
+    { unfold build_packet. change (last_opt [P]) with (Some P). cbv beta iota. replace (0 <? P) with true by lia.
+      change (removelast [P]) with (@nil Z). rewrite app_nil_r. rewrite compress_sum_abs.
+      apply append_gap_compress; [exact Hbnz|rewrite sum_abs_app; lia|exact Hbne]. }
+    rewrite Ebp in Hp. destruct Hp as [Hn _|P' bds HP' Hcl Hpos ->]; [congruence|]. assert (P' = P) by congruence. subst P'.
+    eapply Hfin.
+    pose proof (parseM_render_period_only tol m s Ht Hms' Htab li P syms bds Hnz Halt Hlast HP ltac:(lia) Hlen2 Hsv) as Hth.
+    cbv zeta in Hth. fold t in Hth. apply Hth; auto. rewrite sum_abs_app. lia.
+Qed.
+
+Theorem base_decode_roundtrip D tol xs frame ds :
+  rt_ok D tol = true -> Forall canonical xs -> map nbits xs = widths (d_params D) ->
+  render_part (PPacket (d_lead_in D) (d_lead_out D) (d_bursts D) (d_msb D) [] xs) = Ok frame ->
+  perturbed tol (period_of D) frame ds ->
+  exists t, as_pairs (d_bursts D) = Some t /\ base_decode D t tol ds = Ok xs.
+Proof.
+  intros Hok Hc Hw Hr Hp. unfold rt_ok in Hok. destruct (as_pairs (d_bursts D)) as [t|] eqn:Et; [|discriminate].
+  exists t. split; [reflexivity|]. destruct (is_manchester t) eqn:Hman.
+  - eapply base_decode_roundtrip_M; eauto.
+  - eapply base_decode_roundtrip_H; eauto.
+Qed.
+
 (* the exact frame is one of the admitted perturbations, given what C03's check establishes about it *)
 Lemma exact_frame_perturbed tol D frame :
   0 <= tol -> frame_wf frame -> (forall P, period_of D = Some P -> 0 < P /\ sum_abs frame = P) ->
@@ -503,8 +611,11 @@ Theorem exact_roundtrip D tol xs :
 Proof.
   intros Hrt Hpk Hc Hw. destruct (part_ok_sound _ Hpk) as [frame [Er [Hwf Hs]]].
   assert (0 <= tol) as Ht.
-  { unfold rt_ok in Hrt. destruct (as_pairs (d_bursts D)); [|discriminate]. unfold rt_ok_t in Hrt.
-    repeat match type of Hrt with (_ && _ = true) => let H := fresh "H" in apply andb_true_iff in Hrt as [Hrt H] end. lia. }
+  { unfold rt_ok in Hrt. destruct (as_pairs (d_bursts D)) as [t|]; [|discriminate]. destruct (is_manchester t).
+    - unfold rtM_ok_t in Hrt. destruct t as [|[m s] [|[s' m'] [|q r]]]; try discriminate.
+      repeat match type of Hrt with (_ && _ = true) => let H := fresh "H" in apply andb_true_iff in Hrt as [Hrt H] end. lia.
+    - unfold rt_ok_t in Hrt.
+      repeat match type of Hrt with (_ && _ = true) => let H := fresh "H" in apply andb_true_iff in Hrt as [Hrt H] end. lia. }
   assert (perturbed tol (period_of D) frame frame) as Hp.
   { apply exact_frame_perturbed; [exact Ht|exact Hwf|]. intros P HP. split; [eapply period_of_pos; eauto|].
     apply Hs. apply period_of_part_sum. exact HP. }
